@@ -11,6 +11,7 @@ CONF = {
     "assumptions": [
         "the reference machine and the three-valued cache model are the trusted base; after a vcl_fetch that ended in error/restart/pass/hit_for_pass, or that was reached through pass, the cache content is unspecified and the branch falco takes is followed",
         "deliver_stale is not generated (needs a stale object, i.e. the clock); TTLs are 0 or 1h and rate windows 60s so that no expectation depends on timing",
-        "cached / X-Cache are checked for requests with exactly one lookup and no pass",
+        "cached / X-Cache are checked for requests with exactly one lookup (also when vcl_hit / vcl_miss passed afterwards; requests passed in vcl_recv have no lookup)",
+        "sampled plans also assign actions the subroutine reference does not list for a subroutine (e.g. return(fetch) in vcl_recv, return(hit_for_pass) outside vcl_fetch): there is no documented successor, so no further lifecycle subroutine may run and — unless the subroutine is vcl_log — the request must end in a reported error",
     ],
 }
